@@ -10,6 +10,7 @@ package main
 import (
 	"bytes"
 	"fmt"
+	"time"
 
 	"gitlab.com/gomidi/midi/v2"
 	"gitlab.com/gomidi/midi/v2/drivers"
@@ -32,6 +33,7 @@ type fakeOut struct {
 	name string
 	l    *log
 	open bool
+	cost time.Duration // virtual time a Send takes
 }
 
 func (f *fakeOut) Open() error             { f.open = true; return nil }
@@ -42,6 +44,9 @@ func (f *fakeOut) String() string          { return f.name }
 func (f *fakeOut) Underlying() interface{} { return nil }
 func (f *fakeOut) Send(b []byte) error {
 	f.l.evs = append(f.l.evs, sent{f.name, append([]byte(nil), b...), int64(vtime.Elapsed() / 1000)})
+	if f.cost > 0 {
+		vtime.Sleep(f.cost)
+	}
 	return nil
 }
 
@@ -65,6 +70,7 @@ type expectEv struct {
 	track int
 	data  []byte
 	tick  int64
+	pc    bool // a program change (filtered out by Only(ControlChangeMsg))
 }
 
 // build creates the file; channel messages are unique (channel = track,
@@ -86,11 +92,18 @@ func build(ns []int, pat string, withMeta bool) ([]byte, [][]expectEv) {
 			}
 		}
 		for i := 0; i < n; i++ {
+			if withMeta && i%4 == 2 {
+				// a message of another type with a delta of its own
+				tick += 7
+				pm := midi.ProgramChange(uint8(tr), uint8(i))
+				t.Add(7, pm)
+				exp[tr] = append(exp[tr], expectEv{tr, pm, tick, true})
+			}
 			d := patterns[pat](tr, i, n)
 			tick += int64(d)
 			m := midi.ControlChange(uint8(tr), uint8(i), uint8(100+tr))
 			t.Add(d, m)
-			exp[tr] = append(exp[tr], expectEv{tr, m, tick})
+			exp[tr] = append(exp[tr], expectEv{tr, m, tick, false})
 			if withMeta && i%3 == 1 {
 				t.Add(0, smf.MetaText("x"))
 				if tr == 0 && i == 4 {
@@ -122,8 +135,35 @@ func dense(ns []int) string {
 }
 
 func play(data []byte, exp [][]expectEv, ns []int, pat string, withMeta bool, sel []int, mp map[int]string) {
+	playVariant(data, exp, ns, pat, withMeta, sel, mp, false, false)
+	if len(mp) == 2 && len(sel) != 1 {
+		// Only(ControlChangeMsg): the other message types are skipped, nothing else changes
+		playVariant(data, exp, ns, pat, withMeta, sel, mp, true, false)
+	}
+	if len(mp) == 1 && mp[-1] == "B" {
+		// the same reader played a second time, into a port whose Send takes time
+		playVariant(data, exp, ns, pat, withMeta, sel, mp, false, true)
+	}
+}
+
+func playVariant(data []byte, expAll [][]expectEv, ns []int, pat string, withMeta bool, sel []int, mp map[int]string, only bool, twice bool) {
 	ctx.Eval()
 	vtime.Reset()
+	exp := expAll
+	if only {
+		exp = make([][]expectEv, len(expAll))
+		for t := range expAll {
+			for _, e := range expAll[t] {
+				if !e.pc {
+					exp[t] = append(exp[t], e)
+				}
+			}
+		}
+		pat += "+only-filter"
+	}
+	if twice {
+		pat += "+second-playback"
+	}
 	l := &log{}
 	ports := map[string]*fakeOut{"A": {name: "A", l: l, open: true}, "B": {name: "B", l: l, open: true}}
 	outs := map[int]drivers.Out{}
@@ -131,12 +171,23 @@ func play(data []byte, exp [][]expectEv, ns []int, pat string, withMeta bool, se
 		outs[k] = ports[v]
 	}
 	tr := smf.ReadTracksFrom(bytes.NewReader(data), sel...)
+	if only {
+		tr = tr.Only(midi.ControlChangeMsg)
+	}
+	if twice {
+		for _, p := range ports {
+			p.cost = 60 * time.Millisecond
+		}
+		engine.Catch(func() { tr.MultiPlay(outs) })
+		l.evs = nil
+		vtime.Reset()
+	}
 	if tr.Error() != nil {
 		report("play:read-error", ns, pat, withMeta, sel, mp, tr.Error().Error())
 		return
 	}
 	var err error
-	viaPlay := len(mp) == 1 && mp[-1] == "A" && len(ns)%2 == 1
+	viaPlay := !only && !twice && len(mp) == 1 && mp[-1] == "A" && len(ns)%2 == 1
 	c := engine.Catch(func() {
 		if viaPlay {
 			// Play(out) is documented as MultiPlay with the port as default; it opens the port
